@@ -165,11 +165,25 @@ def assume_type(v, st, world=None):
     st.assume(kindof(v.t) == KIND_CODE.get(k, 0))
   if k == 'obj':
     st.assume(subcls(typeof(v.t), cls_const(v.ty.name)))
+  if k in ('list', 'vtuple') and v.ty.args and v.ty.args[0].kind in ('str', 'int'):
+    # declared scalar element type: every position holds a boxed scalar
+    ix = z3.Const(fresh_name('ti'), I)
+    it = st.heap.item(v.t, ix)
+    rt = box_str(unbox_str(it)) if v.ty.args[0].kind == 'str' else box_int(unbox_int(it))
+    st.assume(z3.ForAll([ix], z3.Implies(z3.And(ix >= 0, ix < st.heap.len(v.t)), rt == it)))
+  if k == 'opt' and v.ty.args and v.ty.args[0].kind == 'obj':
+    st.assume(z3.Implies(v.t != NONE, z3.And(subcls(typeof(v.t), cls_const(v.ty.args[0].name)), kindof(v.t) == 0)))
   if k in ('set', 'list', 'vtuple') and v.ty.args and v.ty.args[0].kind == 'obj':
     # declared element type: every element is an instance of it
     e = z3.Const(fresh_name('te'), U)
     member = st.heap.mem(v.t, e) if k == 'set' else st.heap.lmem(v.t, e)
     st.assume(z3.ForAll([e], z3.Implies(member, z3.And(subcls(typeof(e), cls_const(v.ty.args[0].name)), e != NONE))))
+    if k != 'set':
+      # the same fact by position (membership and positions are tied only through the list primitives)
+      ix = z3.Const(fresh_name('ti'), I)
+      it = st.heap.item(v.t, ix)
+      st.assume(z3.ForAll([ix], z3.Implies(z3.And(ix >= 0, ix < st.heap.len(v.t)),
+                                            z3.And(subcls(typeof(it), cls_const(v.ty.args[0].name)), it != NONE))))
 
 
 # ------------------------------------------------------------- truthiness / equality
@@ -243,6 +257,10 @@ def seteq_formula(a, b, st):
   return ForAllT([x], pa(x) == pb(x))
 
 
+def _opt_scalar(ty):
+  return ty.kind == 'opt' and ty.args and ty.args[0].kind in ('str', 'int', 'bool')
+
+
 def values_equal(a, b, st, world=None):
   """z3 Bool for Python `a == b` on modelled values."""
   if a is VNone or b is VNone:
@@ -285,6 +303,9 @@ def values_equal(a, b, st, world=None):
       return z3.And(h.len(a.t) == h.len(b.t),
                     ForAllT([i], z3.Implies(z3.And(i >= 0, i < h.len(a.t)),
                                               h.item(a.t, i) == h.item(b.t, i))))
+    if _opt_scalar(a.ty) and _opt_scalar(b.ty):
+      # Opt[str] / Opt[int] / Opt[bool]: scalars are embedded injectively in U, None is a constant
+      return a.t == b.t
     # unknown types: reflexive uninterpreted equality
     return z3.Or(a.t == b.t, py_eq(a.t, b.t))
   if isinstance(a, (VGlobal, VBuiltin)) or isinstance(b, (VGlobal, VBuiltin)):
@@ -333,7 +354,16 @@ def alloc_obj(st, ty, hint='o', cls_name=None):
   if cn:
     st.assume(typeof(t) == cls_const(cn))
   old = h.get('alloc')
-  st.heap = h.with_('alloc', lambda o: z3.Or(o == t, old(o)))
+  if not getattr(st, 'event_mode', False):
+    mark_fresh(t)
+
+  def alloc_now(o):
+    if o.eq(t):
+      return z3.BoolVal(True)
+    if known_distinct(o, t):
+      return old(o)
+    return z3.Or(o == t, old(o))
+  st.heap = h.with_('alloc', alloc_now)
   return VRef(t, ty)
 
 
@@ -374,6 +404,9 @@ def new_list(st, items_u, ty=None):
   return r
 
 
+NAMED_ITEMS = [True]
+
+
 def new_list_sym(st, length, itemfn, ty=None, mempred=None):
   """Fresh list with symbolic length and element function (i -> U term)."""
   r = alloc_obj(st, ty or Ty('list', (ANY,)), 'list')
@@ -385,8 +418,17 @@ def new_list_sym(st, length, itemfn, ty=None, mempred=None):
     st.assume(ForAllT([i], z3.Implies(z3.And(i >= 0, i < length), P(itemfn(i)))))
     mempred = lambda e: P(e)
   st.heap = st.heap.with_('lmem', upd2(oldl, r.t, mempred))
+  if NAMED_ITEMS[0]:
+    # the element function gets a name, defined by an axiom with the name as its trigger: instantiation
+    # chains through comprehension / concatenation layers then follow ground terms instead of If-terms
+    nm = ufn(fresh_name('itemof'), I, U)
+    j = z3.Const(fresh_name('lj'), I)
+    st.assume(z3.ForAll([j], nm(j) == itemfn(j), patterns=[nm(j)]))
+    named = lambda i: nm(i)
+  else:
+    named = itemfn
   st.heap = st.heap.with_('len', upd1(oldlen, r.t, length)).with_(
-      'item', lambda l, i: z3.If(l == r.t, itemfn(i), olditem(l, i)))
+      'item', lambda l, i: obj_ite(l, r.t, lambda: named(i), lambda: olditem(l, i)))
   return r
 
 
